@@ -281,6 +281,14 @@ func ruleOmit0(c *Ctx) {
 		}
 		seen[mr.Fn] = true
 		info := mr.Pkg.TypesInfo
+		if strings.HasPrefix(ct.Name, "null.") {
+			// "drops only the invalid value" is Omit == !Valid, decided on SSA under forced values
+			if fo := p.SSA.FuncValue(mr.Fn); fo != nil && len(fo.Blocks) > 0 {
+				c.Oblige("T.omit0", omitIsNotValid(fo), mr.Decl.Pos(), funcName(mr.Fn), "Omit == !Valid",
+					"Omit may only drop the zero value (or nil/invalid): a null value is dropped exactly when it is not valid", nil)
+				continue
+			}
+		}
 		for _, r := range returnsIn(mr.Decl.Body) {
 			if len(r.Results) != 1 {
 				continue
